@@ -124,43 +124,57 @@ def check_uniqueness(ctx):
 
 
 def check_flavour_tables(ctx, rule="C01.U"):
-    """each Flavour instance owns its opcode and mnemonic tables (shared by C01.U, C02.O, C17.N: decoding, the published
-    opcodes and the parser's mnemonic lookup all go through these two tables)"""
-    repo = ctx.repo
-    # Flavour.__init__: id_map keyed by instr.id, name_map by instr.mnemonic, lookups use the same maps
+    """Each Flavour instance resolves opcodes and mnemonics through tables of its own (shared by C01.U, C02.O, C17.N: decoding, the
+    published opcodes and the parser's mnemonic lookup all go through get_instr_by_id / get_instr_by_name).  Decided by executing the
+    flavour constructors and lookups in the checker's interpreter, all flavours in one scenario (module- and class-level objects are
+    shared as in a process): every class a flavour lists is found under its opcode and under its mnemonic (the flavour-specific
+    class winning over a core class with the same key), and constructing the other flavours afterwards changes nothing in a
+    flavour constructed before."""
+    from .. import circuit as C
+    repo, ev = ctx.repo, ctx.ev
     fc = repo.get_class(I.FLAVOUR_MOD, "Flavour")
-    init = fc.methods.get("__init__")
-    if init is None:
-        raise AnalysisError("Flavour.__init__ not found")
-    maps = {}
-    for n in A.body_nodes(init):
-        if isinstance(n, (ast.DictComp,)) and len(n.generators) == 1 and isinstance(n.generators[0].target, ast.Name):
-            tv = n.generators[0].target.id  # the class iterated over, whatever the loop variable is called
-            key = f"instr.{n.key.attr}" if isinstance(n.key, ast.Attribute) and isinstance(n.key.value, ast.Name) and n.key.value.id == tv else src(n.key)
-            val = "instr" if isinstance(n.value, ast.Name) and n.value.id == tv else src(n.value)
-            maps.setdefault(key, []).append(val)
-    ok = "instr.id" in maps and "instr.mnemonic" in maps and all(v == "instr" for vs in maps.values() for v in vs)
-    ctx.check(rule, "Flavour.__init__:tables-keyed-by-id-and-mnemonic", ok,
-              f"Flavour.__init__ builds tables keyed by {sorted(maps)} (expected instr.id and instr.mnemonic mapping to the class itself)",
-              fc.loc(init))
-    # every flavour instance owns its tables: they are updated in place with the flavour-specific classes
-    for table in ("id_map", "name_map"):
-        assigns = [n for t_, v_, n in A.plain_assigns(init) if A.is_self_attr(t_, table)]
-        mutated = any(isinstance(c, ast.Call) and isinstance(c.func, ast.Attribute) and c.func.attr in ("update", "setdefault", "pop", "clear") and A.is_self_attr(c.func.value, table) for c in A.calls_in(init)) or \
-            any(isinstance(n, ast.Assign) and isinstance(n.targets[0], ast.Subscript) and A.is_self_attr(n.targets[0].value, table) for n in A.body_nodes(init))
-        fresh = bool(assigns) and all(isinstance(a.value, (ast.Dict, ast.DictComp)) or (isinstance(a.value, ast.Call) and (dotted(a.value.func) in ("dict", "OrderedDict") or (isinstance(a.value.func, ast.Attribute) and a.value.func.attr in ("copy",)) or dotted(a.value.func) in ("copy.copy", "copy.deepcopy"))) for a in assigns)
-        ctx.check(rule, f"Flavour.__init__:{table}:owned-by-the-instance", fresh or not mutated,
-                  f"Flavour.__init__ binds self.{table} to `{src(assigns[0].value) if assigns else None}` and then updates it in place: every flavour instance aliases the same table, "
-                  f"so constructing another flavour changes how an existing one decodes opcodes / resolves mnemonics", fc.loc(init), sample={"table": table, "initialised_from": src(assigns[0].value)[:60] if assigns else None})
-    for meth, table in (("get_instr_by_id", "id_map"), ("get_instr_by_name", "name_map")):
-        f = fc.methods.get(meth)
-        if f is None:
-            raise AnalysisError(f"Flavour.{meth} not found")
-        rets = A.returns(f)
-        params = A.param_names(f)
-        ok = len(rets) == 1 and len(params) == 2 and A.norm(rets[0].value) == f"self.{table}[{params[1]}]"
-        ctx.check(rule, f"Flavour.{meth}:reads-{table}", ok, f"Flavour.{meth} does not return self.{table}[<its argument>]", fc.loc(f))
+    ctx.fn("Flavour.__init__")
+    sc = C.Scenario()
+    sc.run_constructors, sc.max_depth, sc.plain_registers = True, 40, True
+    flv = sorted(I.flavours(repo).items())
 
+    def lookups(fname, obj, core, spec):
+        want_id, want_name = {}, {}
+        for c in core + spec:
+            want_id[I.field_default(repo, ev, c, "id")] = c
+            want_name[I.field_default(repo, ev, c, "mnemonic")] = c
+        bad = []
+        for meth, want in (("get_instr_by_id", want_id), ("get_instr_by_name", want_name)):
+            for k_, c in sorted(want.items(), key=lambda kv: str(kv[0])):
+                try:
+                    got = C.Interp(repo, ev, sc, None).method(obj, meth, [k_], {}, None)
+                except C.EvalRaise as ex_:
+                    got = f"raises {ex_.exc_name}"
+                if not (isinstance(got, tuple) and got[0] == "class" and got[1] is c):
+                    bad.append(f"{fname}.{meth}({k_!r}) gives {got[1].name if isinstance(got, tuple) and got[0] == 'class' else got}, the flavour lists {c.name}")
+        return bad
+
+    try:
+        objs = {}
+        first_bad = {}
+        for fname, (fcls, core, spec) in flv:
+            objs[fname] = C.Interp(repo, ev, sc, None).construct(fcls, [], {}, None)
+            first_bad[fname] = lookups(fname, objs[fname], core, spec)
+        keyed = [b_ for f_ in first_bad.values() for b_ in f_]
+        ctx.check(rule, "Flavour.__init__:tables-keyed-by-id-and-mnemonic", not keyed,
+                  f"a flavour does not find the classes it lists under their opcode / mnemonic: {'; '.join(keyed[:3])}", fc.loc())
+        # after all flavours exist, the ones constructed first still answer as they did
+        later = []
+        for fname, (fcls, core, spec) in flv:
+            now = lookups(fname, objs[fname], core, spec)
+            later.extend(x_ for x_ in now if x_ not in first_bad[fname])
+        for table in ("id_map", "name_map"):
+            mine = [x_ for x_ in later if ("get_instr_by_id" in x_) == (table == "id_map")]
+            ctx.check(rule, f"Flavour.__init__:{table}:owned-by-the-instance", not mine,
+                      f"constructing another flavour changes how an existing one {'decodes opcodes' if table == 'id_map' else 'resolves mnemonics'}: {'; '.join(mine[:3])} "
+                      "(the instances alias one table)", fc.loc(), sample={"table": table})
+    except AnalysisError as ex_:
+        ctx.error(rule, f"the flavour tables cannot be evaluated: {ex_}")
 
 
 def check_shapes(ctx):
